@@ -49,4 +49,15 @@ PROPS = {
         "real": REAL_MODELS + ["sim.RunSingleModelJSON", "io/json"], "stub": ["stdin/stdout replaced by a fault-injecting reader and a recording writer"],
         "assumptions": SIM_ASSUME + ["encoding/json is used by the oracle to decide whether delivered bytes are a decodable request", "writer errors are not injected (an erroring writer cannot receive the promised document)"],
     },
+    "C08": {
+        "engine": "h5", "level": "exploration", "race": True,
+        "quick": {"runs": 5000, "race_runs": 600, "budget_s": 150},
+        "thorough": {"runs": 1000000, "race_runs": 100000, "budget_s": 1500},
+        "rule": "one run = one seeded history of the real io.H5Ref<T> code over the fake HDF5 disk, in one of three configurations: (a) 6-30 sequential Create/Write/WriteSlice/Load/Shape/Exists/GetDatasets/GetGroups/LoadText operations over 1-2 files and 4 dataset paths, all 8 element types, 1-3 dims with extents 0-6, six in-memory source layouts, selections with start/stop/step incl. stop beyond the extent, checked operation by operation against a dataset-map model with a whole-disk comparison (exact footprints); (b) 2-4 concurrent client tasks under the seeded scheduler with disk latencies, the recorded history (<= 24 operations, unique written values, sequence-number stamps) checked with porcupine, plus the lock-discipline monitor (overlap of a mutating call with any other call; held lock modes); (c) sequential histories with injected open/create/read/write errors and torn writes under the narrowly relaxed oracle; non-trivial = at least two operations (sequential) or at least one scheduling decision with 2 or more runnable tasks (concurrent)",
+        "real": ["io (all eight H5Ref<T> instantiations, hdf5_util.go)", "conv", "data", "data/cdata", "util"], "stub": ["HDF5 C library and gonum binding (fakehdf5: in-memory datasets, hyperslab selection, call log, fault plan, lock monitor)", "file namespace (os.Stat/os.Remove -> simulated)"],
+        "assumptions": ["fake HDF5 semantics as listed in fakehdf5/hdf5.go (extent fixed at creation, zero fill, hyperslab = count blocks of block elements every stride, row-major pairing, no type conversion, absent/present errors); the real library cannot be consulted in this sandbox",
+                        "data transfers of the fake are split by a scheduling point so that an unlocked concurrent call can observe a half-done transfer, as with a non-thread-safe library",
+                        "behaviour under disk errors is not stated by the property: under faults only crash-freedom, lock release and absence of damage to other data are asserted; swallowed errors are counted as observations",
+                        "testing/synctest, instrumenter (sync -> simulated sync), porcupine v1.3.0"],
+    },
 }
